@@ -77,7 +77,7 @@ def rules(ctx):
                   "the data copy is not bracketed by two loads of the sequence", fn.where(rd[0]), fn=fn)
         # the return is reachable only via the true edge of the distance test
         rets = flow.find(fn, {"k": "return"})
-        dist = lambda f, nid: f.nodes[nid]["k"] == "bin" and f.nodes[nid]["op"] in ("<", "<=", "==") and "seq" in f.expr(nid)
+        dist = lambda f, nid: f.nodes[nid]["k"] == "bin" and f.nodes[nid]["op"] in ("<", "<=", "==") and flow.has_src(f, nid, "load:_seq")
         for r in rets:
             ok, p, n = flow.only_via(fn, r, dist, True)
             ctx.check(ok and n > 0, rid, S + "load#exit|distance[%s]" % fn.insts[0].split("::load")[0][-50:], "return only through the distance test",
@@ -86,7 +86,7 @@ def rules(ctx):
         slots = None
         for e in flow.find(fn, {"k": "bin"}):
             n = fn.nodes[e]
-            if n["op"] in ("<", "<=") and "seq2" in fn.expr(e):
+            if n["op"] in ("<", "<=") and flow.has_src(fn, fn.kids(e)[0], "load:_seq") and fn.nodes[fn.kids(e)[0]]["k"] == "bin" and fn.nodes[fn.kids(e)[0]]["op"] == "-":
                 kids = fn.kids(e)
                 bound = fn.nodes[kids[1]].get("v")
                 # slots from the expression (2*slots-1) => slots = (bound+1)/2 ; compare with the modulus used for the slot index
@@ -113,7 +113,7 @@ def rules(ctx):
           why="the fence orders the relaxed word loads before the sequence reload")
     chain(ctx, rid, S + "store_data", [FENCE_REL, {"k": "call", "kind": "store", "desc": "word store"}], label="release-fence<stores")
     chain(ctx, rid, S + "store", [call("acquire_lock"), call("store_data"), call("release_lock")], label="lock<copy<unlock")
-    chain(ctx, rid, S + "update", [call("acquire_lock"), call("read_data"), {"k": "call", "expr_re": r"^func\(", "desc": "functor"}, call("store_data"), call("release_lock")],
+    chain(ctx, rid, S + "update", [call("acquire_lock"), call("read_data"), {"k": "call", "pred": lambda fn, nid: bool(fn.kids(nid)) and fn.nodes[fn.kids(nid)[0]]["k"] == "ref" and fn.nodes[fn.kids(nid)[0]].get("dk") == "param", "desc": "functor"}, call("store_data"), call("release_lock")],
           label="lock<read<func<write<unlock", why="update must be a read-modify-write under the writer lock (no lost updates)")
     guarded(ctx, rid, S + "acquire_lock", {"k": "return"}, {"k": "call", "field": "_seq", "kind": "cas"}, True, label="return|cas")
     guarded(ctx, rid, S + "acquire_lock", {"k": "call", "field": "_seq", "kind": "cas"}, call("is_write_pending"), False, label="cas|!pending")
@@ -164,20 +164,46 @@ def _check_index(ctx, rid, fn, call_nid, ref, label, reader=False):
         return
     bad = None
     n_eval = 0
+    # the sequence variable(s) the index expression depends on, found by where their value comes from (not by name)
+    want_src = "load:_seq" if reader else "call:acquire_lock"
+    seqvars = set()
+    stack_ = [target]
+    seen_ = set()
+    while stack_:
+        x = stack_.pop()
+        if x in seen_:
+            continue
+        seen_.add(x)
+        xn = fn.nodes[x]
+        if xn["k"] == "ref" and xn.get("dk") == "local":
+            defs = flow.all_defs(fn, xn["name"])
+            if any(want_src in flow.srcs(fn, d) and not (fn.nodes[d]["k"] == "bin" and fn.nodes[d]["op"] in ("%", "&", "+")) for d in defs) and (
+                    want_src in flow.srcs(fn, x)):
+                # a variable directly holding the (possibly shifted) sequence
+                if any(fn.nodes[d]["k"] == "call" for d in defs):
+                    seqvars.add(xn["name"])
+                    continue
+            for d in defs:
+                stack_.append(d)
+        stack_.extend(fn.kids(x))
+    if not seqvars:
+        try:
+            evalx(fn, target, {})   # a constant index (single slot) is evaluated as such below
+        except Unknown:
+            ctx.note("slot index expression of %s: no sequence variable found" % label)
+            return
     for s in range(0, 4 * slots + 6):
         seq = s | 1 if not reader else s  # writers hold an odd sequence; readers may see odd (multi-slot) or even
         if reader and slots == 1 and (seq & 1):
             continue
         try:
-            env = {"seq": seq}
             if reader and slots > 1:
                 # the reader normalises seq with >>=1 / <<=1 statements before indexing: model the documented intent
-                env = {"seq": seq >> 1}
-                got = evalx(fn, target, env)
-                want = ref(seq, slots)
+                env = {v: seq >> 1 for v in seqvars}
             else:
-                got = evalx(fn, target, env)
-                want = ref(seq, slots)
+                env = {v: seq for v in seqvars}
+            got = evalx(fn, target, env)
+            want = ref(seq, slots)
         except Unknown as e:
             ctx.note("slot index expression of %s not evaluable: %s" % (label, e))
             return
